@@ -84,20 +84,22 @@ FirstT(ps) == ps[1][2]
 LastT(ps)  == ps[Len(ps)][2]
 
 (***************************************************************************)
-(* The statement leaves two things open; r names the reading:              *)
-(*  "strict": every step of a multi-line goes strictly forward in time,    *)
-(*            a polygon has at least its exterior ring;                    *)
+(* The statement leaves one thing open; r names the reading:                *)
+(*  "strict": every step of a multi-line goes strictly forward in time;    *)
 (*  "doc"   : a multi-line is forward when its first time < its last time  *)
-(*            (the library's documented rule), a polygon has >= 1 ring;    *)
-(*  "loose" : as "doc", and a polygon without any ring is tolerated        *)
-(*            ("one member" is said of multi-geometries only).             *)
+(*            (the library's documented rule).                             *)
 (* Valid == the "doc" reading; verdicts use strict => accept, ~loose =>    *)
-(* reject, so an outcome is rejected only if no reading allows it.         *)
+(* reject, so an outcome is rejected only if no reading allows it.  The    *)
+(* loosest reading now IS "doc".  (A polygon without any ring was once     *)
+(* left to a looser reading.  It is not open: a polygon is an exterior     *)
+(* ring plus holes, so without a ring it has no shape at all -- "the shape *)
+(* the type requires" fails -- for a Polygon and for every member of a     *)
+(* MultiPolygon alike, wherever the member stands.)                        *)
 (***************************************************************************)
 LineForward(ps, r) == IF r = "strict" THEN \A i \in 1..(Len(ps) - 1) : ps[i][2] < ps[i + 1][2]
                       ELSE FirstT(ps) < LastT(ps)
 RingOK(ring)    == LET ps == Kids(ring) IN Len(ps) >= 3 /\ AllPoints(ps)
-PolyOK(poly, r) == LET rs == Kids(poly) IN Len(rs) >= (IF r = "loose" THEN 0 ELSE 1) /\ \A i \in DOMAIN rs : RingOK(rs[i])
+PolyOK(poly, r) == LET rs == Kids(poly) IN Len(rs) >= 1 /\ \A i \in DOMAIN rs : RingOK(rs[i])      \* under every reading
 LineOK(line, r, ordered) == LET ps == Kids(line) IN Len(ps) >= 2 /\ AllPoints(ps) /\ (ordered => LineForward(ps, r))
 
 ValidR(k, s, r) ==
@@ -113,7 +115,7 @@ ValidR(k, s, r) ==
          [] k = "MultiPolygon"    -> LET ps == Kids(s) IN Len(ps) >= 1 /\ \A i \in DOMAIN ps : PolyOK(ps[i], r)
 Valid(k, s)       == ValidR(k, s, "doc")
 ValidStrict(k, s) == ValidR(k, s, "strict")
-ValidLoose(k, s)  == ValidR(k, s, "loose")
+ValidLoose(k, s)  == ValidR(k, s, "doc")          \* the loosest reading the statement admits
 
 \* normal form (arguments assumed Valid)
 SortBox(s) == <<OPEN, Min(s[2], s[4]), Min(s[3], s[5]), Max(s[2], s[4]), Max(s[3], s[5]), CLOSE>>
